@@ -77,7 +77,9 @@ func New() *Sched {
 		byGid:      map[uint64]*thread{},
 		controlled: map[any]bool{},
 		faults:     map[string][]int{},
-		skip:       map[string]bool{},
+		// observation-only hook points of other groups (never gates): wire.alloc is the frame-buffer request
+		// recorded by the wirecodec driver; it sits on every remoting path
+		skip:       map[string]bool{"wire.alloc": true},
 		only:       map[string]bool{},
 		adopt:      map[string]string{},
 		detach:     map[string]bool{},
